@@ -177,7 +177,12 @@ func (ci *ChunkInfo) updateChunkInfo(rootCid, overlay boson.Address, bv []byte) 
 		if v == 0 {
 			return
 		}
-		bit, _ := bitvector.NewFromBytes(bv, v)
+		bit, err := bitvector.NewFromBytes(bv, v)
+		if err != nil {
+			// the peer's vector is too short for the file: do not record it
+			ci.logger.Errorf("chunk discover: invalid bit vector from %s", overlay)
+			return
+		}
 		vb = &discoverBitVector{
 			bit:  bit,
 			time: time.Now().Unix(),
